@@ -1,6 +1,7 @@
 """C06 — content hashes: streaming hasher fed exactly the accepted bytes; one merge core for producer and validators."""
 from .core import an, strip_generics as sg
 from . import flow
+from . import rules_c05 as c05
 
 EXPLANATION = (
     'Decides: (R06a) HashedWrite::write hashes exactly buf[..n] where n is the Ok payload of the inner writer\'s write on the same buf, after that write; the same hasher is finalised by hash(); '
@@ -111,18 +112,54 @@ def r06c(ctx):
     F = ctx.F
     a = an(F.body('mdb_shard::chunk_verification::range_hash_from_chunks'))
     kh = a.calls('blake3::keyed_hash')
-    ok = len(kh) == 1 and a.arg(kh[0], 0)[0] == 'bytes' and flow.mentions(a.arg(kh[0], 1), lambda z: z == ('param', 1, 'chunks')) and not flow.mentions(a.arg(kh[0], 1), lambda z: z[0] == 'local')
-    ctx.check(ok, 'R06c', a.path, 'keyed_hash', a.loc(kh[0]) if kh else '-', 'one keyed hash over a buffer derived only from the chunks parameter, keyed with a constant')
-    sw = [b for b in a.cfg.reach0 if a.blocks[b]['t']['k'] == 'switch']
-    ctx.check(not sw and not a.cfg.loops(), 'R06c', a.path, 'no branch', '-', 'no branch or loop between the input and the hash (every hash, in iteration order)')
-    cl = F.children(a.body)
-    okc = False
-    for cb in cl:
-        ac = an(cb)
-        rr = [e for (_, _, _, e) in ac.ret_sites()]
-        if len(rr) == 1 and flow.mentions(rr[0], lambda z: z[0] == 'call' and sg(z[1]).endswith('as_bytes')) and flow.mentions(rr[0], lambda z: z[0] == 'param'):
-            okc = True
-    ctx.check(okc, 'R06c', a.path, 'bytes', '-', 'each element contributes all bytes of its hash')
+    is_chunks = lambda z: z[0] == 'param' and z[1] == 1
+    if not ctx.check(len(kh) == 1 and a.arg(kh[0], 0)[0] == 'bytes', 'R06c', a.path, 'keyed_hash', a.loc(kh[0]) if kh else '-', 'one keyed hash, keyed with a constant'):
+        return
+    msg = a.arg(kh[0], 1)
+    loops = a.cfg.loops()
+    if not loops:
+        # pipeline form: chunks.iter().flat_map(|h| h.as_bytes()..).collect()
+        ok = flow.mentions(msg, is_chunks) and not flow.mentions(msg, lambda z: z[0] == 'local')
+        ctx.check(ok, 'R06c', a.path, 'keyed_hash', a.loc(kh[0]), 'the hashed buffer derives only from the chunks parameter')
+        sw = [b for b in a.cfg.reach0 if a.blocks[b]['t']['k'] == 'switch']
+        ctx.check(not sw, 'R06c', a.path, 'no branch', '-', 'no branch or loop between the input and the hash (every hash, in iteration order)')
+        cl = F.children(a.body)
+        okc = False
+        for cb in cl:
+            ac = an(cb)
+            rr = [e for (_, _, _, e) in ac.ret_sites()]
+            if len(rr) == 1 and flow.mentions(rr[0], lambda z: z[0] == 'call' and sg(z[1]).endswith('as_bytes')) and flow.mentions(rr[0], lambda z: z[0] == 'param'):
+                okc = True
+        ctx.check(okc, 'R06c', a.path, 'bytes', '-', 'each element contributes all bytes of its hash')
+        return
+    # loop form: a byte buffer filled by one pass over the chunks, each iteration appending all bytes of the element
+    from . import loops as L
+    buf = msg
+    while buf[0] in ('index', 'slice'):
+        buf = buf[1]
+    ctor = buf[0] == 'call' and sg(buf[1]).split('::')[-1] in ('new', 'with_capacity')
+    okb = buf[0] == 'local' or ctor
+    ext = [c for c in a.calls() if okb and a.term(c)['args'] and a.arg(c, 0) == buf and sg(a.term(c).get('fn', '')).split('::')[-1] not in ('as_slice', 'len', 'deref', 'as_ref', 'capacity')
+           and a.flow.lty((a.term(c)['args'][0].get('mv') or a.term(c)['args'][0].get('cp') or {'l': 0})['l']).startswith('&mut')]
+    good = okb and len(ext) == 1 and sg(a.term(ext[0]).get('fn', '')).endswith('extend_from_slice')
+    lp = c05.loop_of(a, ext[0]) if good else None
+    wp = L.whole_pass(a, lp, is_chunks) if lp else None
+    ctx.check(good and wp is not None and len(loops) == 1, 'R06c', a.path, 'no branch', a.loc(ext[0]) if ext else '-',
+              'the buffer is filled by exactly one extend_from_slice in one loop that passes over the whole chunks parameter, front to back')
+    if good and wp:
+        x = a.arg(ext[0], 1)
+        okx = x[0] == 'call' and sg(x[1]).endswith('as_bytes') and len(x[2]) == 1 and wp['elem'](x[2][0])
+        if wp['kind'] == 'index':
+            okx = okx and ext[0] not in a.cfg.reach_after([wp['incr_block']], cut_edges=[(q, lp[0]) for q in lp[1] if lp[0] in a.cfg.succ[q]])
+        ctx.check(okx, 'R06c', a.path, 'bytes', a.loc(ext[0]), 'each element contributes all bytes of its hash')
+        ctx.check(L.every_iteration_passes(a, lp, ext[0]) and a.cfg.must_pass(kh[0], via_edges=wp['exhaust']), 'R06c', a.path, 'every element', a.loc(ext[0]),
+                  'every iteration appends, and the hash is taken only after the pass is complete')
+        ds = a.flow.defs.get(buf[1], []) if not ctor else []
+        oki = (ctor and buf[3] not in lp[1]) or (len(ds) == 1 and ds[0][0] in ('call', 'assign') and ds[0][1] not in lp[1])
+        if oki and not ctor:
+            e0 = a.flow.call(ds[0][2], ds[0][1], 0) if ds[0][0] == 'call' else a.flow.rvalue(ds[0][3], 0)
+            oki = e0[0] == 'call' and sg(e0[1]).split('::')[-1] in ('new', 'with_capacity')
+        ctx.check(oki, 'R06c', a.path, 'empty start', '-', 'the buffer starts empty')
 
 
 def r06d(ctx):
